@@ -412,6 +412,8 @@ def _run(case, info):
         return 'unknown-factor:%r' % (r,)
     if op == 'rule':
         return _run_rule(case, info)
+    if op == 'hist':
+        return _run_hist(case, info)
     if op == 'set':
         return _run_set(case, info)
     if op == 'scale':
@@ -435,6 +437,10 @@ def _run_rule(case, info):
         info['r0'] = spec['f'](a0, b0, case)
     except Exception as e:
         info['r0'] = e
+    return _rule_obs(case, r, info)
+
+
+def _rule_obs(case, r, info):
     oname = case['oname']
     if oname in ('eq', 'ne'):
         # operands hold identical values: a value comparison says True for == and False for !=
@@ -451,6 +457,103 @@ def _run_rule(case, info):
         info['units'].append(('units of derivative ' + key, d._units_))
     o = uobs(r._units_)
     return 'inexact' if o == 'inexact' else ['units', o]
+
+
+HIST_CHANGES = ['set_units', 'set_none', 'without', 'into', 'from', 'clone_set', 'clone_orig', 'copy_set', 'copy_orig']
+HIST_TOUCHES = ['wod', 'antimask', 'product', 'norm', 'mask', 'readonly_probe']
+
+
+def hist_effective(change, cur, new):
+    """units (spec) the target object must carry after the history"""
+    if change in ('set_units', 'clone_set', 'copy_set'):
+        return new
+    if change in ('set_none', 'without'):
+        return None
+    return cur                   # into / from / clone_orig / copy_orig
+
+
+def deriv_spec(u):
+    """units of d(quantity)/dt for a quantity in units `u`"""
+    return None if u is None else ['/', u, 'S']
+
+
+def _touch(obj, what):
+    if what == 'wod':
+        return obj.wod
+    if what == 'antimask':
+        return obj.antimask
+    if what == 'product':
+        return obj * Scalar(2.0)
+    if what == 'norm':
+        return obj.norm() if obj._nrank_ == 1 else abs(obj) if obj._nrank_ == 0 else obj.wod
+    if what == 'mask':
+        return obj.mask
+    return obj.readonly
+
+
+def hist_object(case, with_units=True):
+    """run the history; returns (target object, object it came from)"""
+    cur = build(case['cur']) if with_units else None
+    new = build(case['new']) if with_units else None
+    eff = hist_effective(case['change'], case['cur'], case['new'])
+    d_units = [build(deriv_spec(eff)) if (with_units and case['dunits']) else None for _ in range(case['nderivs'])]
+    obj = make(case['cls'], case['shape'], cur, d_units)
+    for t in case['touch']:
+        _touch(obj, t)
+    ch = case['change']
+    if ch == 'set_units':
+        obj.set_units(new); y = obj
+    elif ch == 'set_none':
+        obj.set_units(None); y = obj
+    elif ch == 'without':
+        y = obj.without_units()
+    elif ch == 'into':
+        y = obj.into_units()
+    elif ch == 'from':
+        y = obj.from_units()
+    elif ch in ('clone_set', 'clone_orig', 'copy_set', 'copy_orig'):
+        y = obj.clone() if ch.startswith('clone') else obj.copy()
+        for t in case['touch'][:1]:
+            _touch(y, t)
+        y.set_units(new)
+        if ch.endswith('orig'):
+            y = obj
+    else:
+        raise KeyError(ch)
+    tgt = y.wod if case['target'] == 'wod' else y
+    return tgt, y
+
+
+def _run_hist(case, info):
+    spec = OBJ_OPS[case['oname']]
+    a, y = hist_object(case)
+    info['target_units'] = a._units_
+    info['y_units'] = y._units_
+    info['units'].append(('units of the object after the history', a._units_))
+    ub = build(case['b'])
+    b = None
+    if spec['arity'] == 2:
+        b = sc(case['shape'], ub) if spec['other'] == 'scalar' else make(case['cls'], case['shape'], ub)
+        if case.get('bderiv'):
+            vals = np.array(b._values_, copy=True) * 0.25
+            b.insert_deriv('d0', type(b)(vals, units=build(deriv_spec(case['b']))))
+    info['ua'], info['ub'] = a._units_, ub
+    names_before = [(x.exponents, x.triple, x.name) if x is not None else None for x in (a._units_, ub)]
+    ua_obj = a._units_
+    r = spec['f'](a, b, case)
+    info['operand_units_changed'] = names_before != [(x.exponents, x.triple, x.name) if x is not None else None
+                                                     for x in (ua_obj, ub)]
+    info['r'] = r
+    if case['change'] not in ('into', 'from'):
+        try:
+            a0, _ = hist_object(case, with_units=False)
+            b0 = None
+            if spec['arity'] == 2:
+                b0 = sc(case['shape'], None) if spec['other'] == 'scalar' else make(case['cls'], case['shape'], None)
+            info['r0'] = spec['f'](a0, b0, case)
+        except Exception as e:
+            info['r0'] = e
+    return _rule_obs(case, r, info)
 
 
 def _values_of(obj):
@@ -579,15 +682,19 @@ def request(case):
             return ['c12', 'test', case['fn'], w(case.get('a')), w(case.get('b'))]
         if op == 'convert':
             return ['c12', 'convert', w(case['a']), w(case['b'])]
-        if op == 'rule':
+        if op in ('rule', 'hist'):
             spec = OBJ_OPS[case['oname']]
             a = w(case['a'])
             b = 'N' if spec.get('bnone') else a if spec.get('bself') else w(case['b'])
             if spec.get('swap'):
                 a, b = b, a
-            if spec['model'] == 'pow':
-                return ['c12', 'rule', a, b, 'pow', case['p'], not case['shape']]
-            return ['c12', 'rule', a, b, spec['model']]
+            opx = ['pow', case['p'], not case['shape']] if spec['model'] == 'pow' else [spec['model']]
+            if op == 'hist' and case['change'] in ('set_units', 'set_none') and not spec.get('swap'):
+                # run the history on the model's cached-view object: touches, set_units (which clears the cache),
+                # then the operation on the object or its .wod
+                n = sum(1 for t in case['touch'] if t in ('wod', 'product', 'norm'))
+                return ['c12', 'hist', n, case['nderivs'], w(case['cur']), a, case['target'], b] + opx
+            return ['c12', 'rule', a, b] + opx
         if op == 'set':
             if case['how'] in ('ctor', 'set_units', 'set_units_str'):
                 return ['c12', 'set_units', case['cls'] in UNIT_CLASSES, w(case.get('cur')), w(case['new'])]
@@ -613,6 +720,8 @@ def kind_of(case):
         return 'test:' + case['fn']
     if op == 'rule':
         return 'rule:%s:%s' % (case['oname'], case['cls'])
+    if op == 'hist':
+        return 'hist:%s:%s:%s' % (case['change'], case['target'], case['cls'])
     if op == 'set':
         return 'set:%s:%s' % (case['how'], case['cls'])
     if op == 'scale':
@@ -836,6 +945,17 @@ def judge(case, obs, info):
         return None
 
     if op == 'rule':
+        return judge_rule(case, obs, info, fail)
+    if op == 'hist':
+        # the object reached by the history must carry exactly the units the history gave it ...
+        if 'target_units' in info:
+            want = R.ref_of(case['a'])
+            bad = units_match_ref(info['target_units'], want)
+            if bad:
+                return fail('stale-units', 'after %s (touched before: %s) the %s has wrong units: %s'
+                            % (case['change'], ','.join(case['touch']) or 'nothing',
+                               'object' if case['target'] == 'obj' else "object's .wod", bad))
+        # ... and every operation must treat it accordingly
         return judge_rule(case, obs, info, fail)
     if op == 'set':
         return judge_set(case, obs, info, fail)
